@@ -29,6 +29,13 @@ Tie to the source:
       regression C12_y0_key_order_refuted), and models with rate laws that BRANCH ON THE SIGN of a variable /
       parameter are observed at negative states (oracle only; Coq: SignFold.v, C12_sign_branches_survive_translation,
       regression C12_nonnegative_symbols_refuted for Symbol(name, nonnegative=True)).
+      Closing pass (seeded change C12-9): models whose stoichiometric coefficients are of UNIT-CONVERSION size (3e-7, 2e-9,
+      a volume ratio computed from two parameters ...) next to coefficients of order 1: every equation and Jacobian entry is
+      compared with the exact value at the scale of the evaluated expression (judge_tiny, c12_oracle.absval; oracle only),
+      a `conversion` simulation family (tiny coefficients times rate constants of order 1e6), the static statement's
+      coefficient is a regenerated fact (Float(n) | Rational(n).limit_denominator(); Coq: SymModel.limit_den / stat_view,
+      C12_rational_coefficients_partial / _refuted) and SymModel.limit_den is compared with CPython's
+      Fraction.limit_denominator on every run (shard c12_limden).
 """
 
 from __future__ import annotations
@@ -93,6 +100,15 @@ _STAT = [
     "for cpd, stoich in cache.stoich_by_cpds.items():\n"
     "    for rxn, stoich_value in stoich.items():\n"
     "        eqs[cpd] = eqs.get(cpd, sympy.Float(0.0)) + sympy.Float(stoich_value) * rxns[rxn]",
+]
+# seeded change C12-9 (a regression: Coq theorem C12_rational_coefficients_refuted): the coefficient is the nearest
+# fraction with a denominator <= 10**6
+_STAT_RAT = [
+    "eqs: dict[str, sympy.Expr] = {}",
+    "for cpd, stoich in cache.stoich_by_cpds.items():\n"
+    "    for rxn, stoich_value in stoich.items():\n"
+    "        coef = sympy.Rational(stoich_value).limit_denominator()\n"
+    "        eqs[cpd] = eqs.get(cpd, sympy.Integer(0)) + coef * rxns[rxn]",
 ]
 _DYN = [
     "for cpd, dstoich in cache.dyn_stoich_by_cpds.items():\n"
@@ -201,6 +217,8 @@ def extract_facts() -> dict[str, str]:
                 off += len(der)
                 if b[off : off + len(_RXN) + len(_STAT)] == _RXN + _STAT:
                     facts["stat"] = "StatFloatTimesRate"
+                elif b[off : off + len(_RXN) + len(_STAT_RAT)] == _RXN + _STAT_RAT:
+                    facts["stat"] = "StatRationalLimited"
                 off += len(_RXN) + len(_STAT)
                 if b[off : off + 1] == _DYN:
                     facts["dyn"] = "DynListTimesRate"
@@ -454,6 +472,21 @@ def observe(desc: dict, t: int, x: list[int], p2: dict[int, int] | None, y0perm:
         else:
             ev, jv = sym_at(sm, m.get_parameter_values())
             out["sym"] = ("ok", ev, jv)
+            if c12_gen.is_tiny(desc):
+                # coefficients spanning many orders of magnitude: the magnitude of every evaluated expression (sum of
+                # the absolute values of what is added up) is the scale its value is compared at (judge_tiny)
+                try:
+                    pv = m.get_parameter_values()
+                    env = {sm.variables[n]: v for n, v in zip(names, xf, strict=True)} | {sm.parameters[k]: float(pv[k]) for k in sm.parameters}
+                    jm = sm.jacobian()
+                    out["mag"] = (
+                        [c12_oracle.absval(e, env) for e in sm.eqs],
+                        [[c12_oracle.absval(jm[i, j], env) for j in range(len(names))] for i in range(len(names))],
+                    )
+                except _Timeout:
+                    raise
+                except Exception as e:  # noqa: BLE001
+                    out["mag_err"] = f"{type(e).__name__}: {str(e)[:100]}"
     except _Timeout:
         raise
     except Exception as e:  # noqa: BLE001
@@ -632,6 +665,53 @@ def judge(desc: dict, obs: dict) -> tuple[list[str], list[str]]:
     return bad, known
 
 
+def judge_tiny(desc: dict, obs: dict) -> tuple[list[str], dict]:
+    """Models whose coefficients span many orders of magnitude (c12_gen.gen_tiny_desc): every equation, every entry of the
+    symbolic Jacobian and of what the simulator's Jacobian function(s) return is compared with the exact right-hand side /
+    derivative at the scale of the evaluated expression itself: |value - exact| <= 1e-11 * (sum of the absolute values of
+    everything the expression adds up, c12_oracle.absval).  Floating-point evaluation and the 15-digit number literals of
+    lambdify stay ~1000 times below that; a term of size 3e-7 that is dropped or replaced by the nearest 1/n is far above.
+    -> (violations, {"judged": entries compared, "tiny_terms": number of non-zero exact entries below 1e-5 in magnitude})"""
+    bad: list[str] = []
+    stats = {"judged": 0, "tiny_terms": 0}
+    if obs["sym"][0] != "ok" or "mag" not in obs:
+        return bad, stats
+    _, ev, jv = obs["sym"]
+    mag_e, mag_j = obs["mag"]
+    ex_rhs, ex_jac = obs["exact_rhs"], obs["exact_jac"]
+    n = len(ex_rhs)
+    names = [c12_gen.nm(v) for v in obs["inputs"]["vars"]]
+    for i in range(n):
+        stats["judged"] += 1
+        stats["tiny_terms"] += 0 < abs(ex_rhs[i]) < 1e-5
+        if not c12_oracle.within(ev[i], ex_rhs[i], mag_e[i]):
+            bad.append(
+                f"coefficients of very different size: the symbolic equation of {names[i]} evaluates to {ev[i]!r} at state {obs['x']} but the numeric "
+                f"right-hand side is {float(ex_rhs[i])!r} (difference {float(abs(c12_oracle._fr(ev[i]) - ex_rhs[i])):.3g}, magnitude of the equation's terms {mag_e[i]:.3g}; equation {str(obs['sm'].eqs[i])[:160]})"
+            )
+            break
+    mats = [("the symbolic Jacobian", jv)]
+    if obs["clo"][0] == "mat":
+        mats.append(("the simulator's Jacobian function", obs["clo"][1]))
+    if obs.get("clo_y0", ("",))[0] == "mat":
+        mats.append(("the Jacobian function of a simulator constructed with a permuted y0 mapping", obs["clo_y0"][1]))
+    for what, mat in mats:
+        hit = None
+        for i in range(n):
+            for j in range(n):
+                stats["judged"] += 1
+                stats["tiny_terms"] += 0 < abs(ex_jac[i][j]) < 1e-5
+                if hit is None and not c12_oracle.within(mat[i][j], ex_jac[i][j], mag_j[i][j]):
+                    hit = (i, j)
+        if hit is not None:
+            i, j = hit
+            bad.append(
+                f"coefficients of very different size: {what} has d({names[i]}')/d({names[j]}) = {mat[i][j]!r} at state {obs['x']} but the derivative of the "
+                f"numeric right-hand side is {float(ex_jac[i][j])!r} (magnitude of the entry's terms {mag_j[i][j]:.3g})"
+            )
+    return bad, stats
+
+
 # ---------------------------------------------------------------------------------------
 # correspondence
 # ---------------------------------------------------------------------------------------
@@ -721,6 +801,46 @@ def corr_file(cases: list[str]) -> str:
     )
 
 
+def limden_file(rng6, n: int) -> tuple[str, list[Fraction], int]:
+    """Correspondence shard for SymModel.limit_den (the model of fractions.Fraction.limit_denominator() that the
+    regression fact StatRationalLimited = seeded change C12-9 uses): n rationals -- binary64 values of
+    unit-conversion factors, decimal fractions, random fractions with denominators around 10**6 -- with what CPython
+    returns.  -> (file, inputs, number of inputs on which sympy.Rational.limit_denominator disagrees with CPython's)"""
+    import sympy
+
+    xs: list[Fraction] = []
+    for c in c12_gen.TINY_COEFS:
+        xs += [c, -c, Fraction(*float(c).as_integer_ratio()), -Fraction(*float(c).as_integer_ratio())]
+    xs += [Fraction(1, 3), Fraction(-3, 2), Fraction(0), Fraction(1, 10**6), Fraction(1, 10**6 + 1), Fraction(999999, 10**6 + 1), Fraction(-5, 10**7)]
+    while len(xs) < n:
+        how = rng6.randrange(5)
+        if how == 0:
+            x = Fraction(rng6.randint(-50, 50), rng6.randint(1, 10**rng6.randint(1, 13)))
+        elif how == 1:
+            x = Fraction(*(rng6.uniform(-1, 1) * 10.0 ** -rng6.randint(0, 12)).as_integer_ratio())
+        elif how == 2:
+            x = Fraction(rng6.randint(-3 * 10**6, 3 * 10**6), rng6.randint(10**6 - 5, 2 * 10**6))
+        elif how == 3:
+            x = Fraction(rng6.randint(-10**9, 10**9), rng6.randint(1, 10**9))
+        else:
+            x = Fraction(rng6.randint(1, 40), 2 ** rng6.randint(15, 45)) * rng6.choice([1, -1])
+        xs.append(x)
+    ys = [x.limit_denominator() for x in xs]
+    sympy_differs = sum(1 for x, y in zip(xs, ys) if Fraction(int(sympy.Rational(x.numerator, x.denominator).limit_denominator().p),
+                                                                int(sympy.Rational(x.numerator, x.denominator).limit_denominator().q)) != y)
+    pairs = clist(f"({cq(x)}, {cq(y)})" for x, y in zip(xs, ys))
+    text = (
+        "From Coq Require Import QArith.\nFrom MxlBase Require Import ListX.\n"
+        "From Symbolic Require Import Expr SymModel.\nOpen Scope Q_scope.\n"
+        f"Definition cases : list (Q * Q) := {pairs}.\n"
+        "Definition mismatches := filter_idx (fun c : Q * Q => negb (match limit_den (fst c) with\n"
+        "  | Some y => Qeq_bool y (snd c) && (Z.pos (Qden (Qred y)) <=? max_den)%Z\n"
+        "  | None => false end)) cases.\n"
+        "Eval vm_compute in mismatches.\n"
+    )
+    return text, xs, sympy_differs
+
+
 # ---------------------------------------------------------------------------------------
 # simulations with / without Jacobian
 # ---------------------------------------------------------------------------------------
@@ -790,6 +910,23 @@ def kinetic_model(family: str, rng):
         m.add_reaction("n0042", fn=c12_fns.b_abs_coupling, args=["n0001", "n0002", "n0012"], stoichiometry={"n0002": -1})
         m.add_reaction("n0043", fn=fns.constant, args=["n0013"], stoichiometry={"n0002": 1})
         m.add_reaction("n0044", fn=fns.mass_action_1s, args=["n0002", "n0013"], stoichiometry={"n0001": -0.25})
+    elif family == "conversion":
+        # amounts tracked in different units: a big medium pool (n0001) is taken up into a small cell (n0002), waste
+        # (n0003) goes back to the medium.  The stoichiometric coefficients are unit-conversion factors of order 1e-7
+        # .. 1e-6 (one of them a volume RATIO computed from two parameters: static), the uptake rate constant is of
+        # order 1e6: the Jacobian entries are products tiny * big of order 1
+        from mxlpy import Derived
+
+        kup = rng.choice([4.0e6, 2.0e5])
+        m.add_variables({"n0001": 10.0, "n0002": 0.3, "n0003": 0.1})
+        m.add_parameters({"n0011": kup, "n0012": rng.choice([0.6, 50.0]), "n0013": 0.05,
+                          "n0014": rng.choice([2.0e-12, 4.0e-13]), "n0015": 1.0e-6})
+        m.add_reaction("n0041", fn=fns.mass_action_1s, args=["n0001", "n0011"],
+                       stoichiometry={"n0001": -rng.choice([3.0e-7, 4.5e-7, 2.0**-22]), "n0002": rng.choice([2.5e-7, 1.0e-7])})
+        m.add_reaction("n0042", fn=fns.mass_action_1s, args=["n0002", "n0012"],
+                       stoichiometry={"n0002": -1, "n0003": Derived(fn=fns.div, args=["n0014", "n0015"])})
+        m.add_reaction("n0043", fn=fns.mass_action_1s, args=["n0003", "n0013"], stoichiometry={"n0003": -0.5})
+        m.add_reaction("n0044", fn=fns.mass_action_2s, args=["n0003", "n0001", "n0011"], stoichiometry={"n0003": -1.3e-6, "n0001": 7.0e-7})
     elif family == "surrogate-output":
         # the OUTPUT of a surrogate (it depends on the state) is an argument of an ordinary reaction or of a
         # derived value a reaction uses: no symbolic form
@@ -1017,6 +1154,36 @@ def run_sims2(run: Run, rng4, n_models: int, viol: list) -> dict:
     return stats
 
 
+def run_sims3(run: Run, rng5, n_models: int, viol: list) -> dict:
+    """third round (own random stream c12-sims3): the `conversion` family -- stoichiometric coefficients of
+    unit-conversion size times rate constants of order 1e6"""
+    stats: dict[str, Any] = {"runs": 0, "jacobian_calls": {}, "max_scaled_dev": 0.0, "jacobian_evaluations_checked": 0,
+                             "skipped_failed_integration": 0, "fallback_without_jacobian": 0}
+    for _ in range(n_models):
+        t_end = rng5.choice([1.0, 5.0])
+        model_seed = rng5.randrange(2**31)
+        for method in ("LSODA", "BDF", "Radau"):
+            signal.setitimer(signal.ITIMER_REAL, 120.0)
+            rep = {"kind": "sim", "family": "conversion", "method": method, "t_end": t_end, "model_seed": model_seed}
+            try:
+                o = sim_compare("conversion", model_seed, method, t_end)
+            except _Timeout:
+                viol.append((f"conversion/{method}: no answer within 120 s", rep))
+                continue
+            finally:
+                signal.setitimer(signal.ITIMER_REAL, 0)
+            stats["runs"] += 1
+            stats["jacobian_evaluations_checked"] += o["checked"]
+            stats["skipped_failed_integration"] += bool(o["skipped"])
+            stats["fallback_without_jacobian"] += bool(o["vacuous"])
+            stats["max_scaled_dev"] = max(stats["max_scaled_dev"], o["dev"] if o["dev"] == o["dev"] else 0.0)
+            stats["jacobian_calls"][method] = stats["jacobian_calls"].get(method, 0) + o["calls"]
+            run.count_case(("sim3", "conversion", method, t_end, model_seed), nontrivial=o["calls"] > 0)
+            if o["violation"]:
+                viol.append((o["violation"], rep))
+    return stats
+
+
 # ---------------------------------------------------------------------------------------
 # known finding: computed parameter-only coefficients are frozen at conversion time
 # ---------------------------------------------------------------------------------------
@@ -1114,6 +1281,15 @@ def _branch_cases(rng2, n: int):
         yield desc, rng2.randint(0, 3), x, p2
 
 
+def _tiny_cases(rng5, n: int):
+    """yield (desc, t, x, p2): models with stoichiometric coefficients of unit-conversion size (oracle only)"""
+    for desc, t, x, p2 in c12_gen.TINY_CORPUS:
+        yield desc, t, x, p2
+    for _ in range(n):
+        desc, x, p2 = c12_gen.gen_tiny_desc(rng5)
+        yield desc, rng5.randint(0, 3), x, p2
+
+
 def _cases(run: Run, rng, n_models: int):
     """yield (desc, t, x, p2)"""
     for desc, t, x, p2 in c12_gen.CORPUS:
@@ -1166,7 +1342,13 @@ def check(run: Run) -> None:
         "(harness/c12_fns.py ids 60-66: if v < 0, conditional expressions, hand-written abs / rectifier / gate), observed at states with non-zero entries, "
         "the sign variable negative in two cases of three (oracle only: Piecewise is outside the Coq expression fragment); a second round of simulations: "
         "a rectifier system living at negative values of a potential-like variable, and Robertson / network / Michaelis-Menten / chain / rectifier with the "
-        "initial state handed over as a mapping in reversed / rotated key order"
+        "initial state handed over as a mapping in reversed / rotated key order.  "
+        "Closing pass (own random streams c12-tiny / c12-sims3 / c12-limden): after two corpus models (the demo of seeded change C12-9) 70 (quick) / 300 (thorough) convertible "
+        "polynomial models in which ONE variable has only stoichiometric coefficients of unit-conversion size (3e-7, 2e-9, 1.3e-6, 7e-7, 4.5e-8, 2.5e-7, 1e-12, 6.4e-6, 9.99e-7, "
+        "1.234567e-6, 5e-10, 2^-21, 2^-20, 3*2^-20, 5*2^-23, 2^-30, 2^-40, either sign), one in two a further such coefficient next to ordinary ones, four in ten one of them computed "
+        "from two parameters (product / ratio, folded by the cache), at non-zero integer states (oracle only, compared within 1e-11 of the magnitude of the evaluated expression); "
+        "2 (quick) / 6 (thorough) `conversion` systems (medium pool / cell / waste, coefficients of order 1e-7 times rate constants of order 1e6) simulated with and without "
+        "Jacobian by LSODA/BDF/Radau; 300 rationals for the model of Fraction.limit_denominator"
     )
     proofs_ok = run.check_proofs(AREA, PROPS)
     run.assumptions += [
@@ -1174,7 +1356,8 @@ def check(run: Run) -> None:
         "SymPy enters the theorems as Section variables: fn_to_sympy (fsym: sound w.r.t. the numeric function, introduces no symbols -- property C06's subject), "
         "differentiation (sdiff: agrees in value with the verified formal derivative D), lambdify (positional binding of names to values, modelled by bind/closure_env); "
         "the three are validated by the correspondence on every run, not proved",
-        "fact extractor harness/c12.py::extract_facts (fail-closed ast matcher over to_symbolic_model, SymbolicModel.jacobian, Simulator._initialise_integrator)",
+        "fact extractor harness/c12.py::extract_facts (fail-closed ast matcher over to_symbolic_model, SymbolicModel.jacobian, Simulator._initialise_integrator; "
+        "recognised static statements: Float(stoich_value) * rate (shipped) and Rational(stoich_value).limit_denominator() * rate (regression))",
         "the model takes the ModelCache tables (order, stoich_by_cpds, dyn_stoich_by_cpds, var_names, all_parameter_values) as INPUT; that the cache is what C01/C02/C03 prove it to be is not re-proved here",
         "cache.order being a topological order of the derived values (hypothesis OrderOk of C12_any_declaration_order) is property C02's theorem; 'Resolved env' (every derived value / rate has its function's value) is what C01 proves the numeric model computes",
         "the snapshot's dynamic-coefficient statement (fact DynListTimesRate) is modelled on non-Integer rate expressions only; the Integer-rate branch (list repetition, unsubstituted body) is demonstrated on the code by the corpus witness, not modelled",
@@ -1187,6 +1370,10 @@ def check(run: Run) -> None:
         "functions are judged by the exact oracle, not by the vm_compute correspondence; at a state where a sign test compares equal values (a kink of the right-hand side) only the values are compared",
         "a simulator constructed with an explicit y0 mapping: the model takes the KEY ORDER of the mapping as input (init_jac_y0); that the state vector is "
         "tuple(y0[k] for k in get_variable_names()) is pinned by the fact extractor (tail statements of _initialise_integrator)",
+        "coefficients of unit-conversion size: such models are judged by the exact oracle only (3e-7 is no dyadic rational; SymPy adds coefficients of like terms in 53 bits and lambdify "
+        "prints 15 digits), tolerance 1e-11 * the sum of the absolute values of what the evaluated expression adds up (c12_oracle.absval; floating-point evaluation stays ~1000 times below); "
+        "SymModel.limit_den (model of fractions.Fraction.limit_denominator for the regression fact StatRationalLimited) has a fuel of 64 loop rounds, exhaustion is an unmodelled outcome, "
+        "not proved unreachable; it is compared with CPython and SymPy on 300 rationals per run",
         "polynomial fragment over Q; rational rate laws (Michaelis-Menten, div) are covered by the oracle and the simulations only; floating point is outside the model",
         "scipy.integrate (solve_ivp LSODA/BDF/Radau) is exercised, not modelled: trajectory agreement is validation with tolerance 1e-4 relative (solver rtol=atol=1e-8)",
         "correspondence harness: literal printer, exactness guard |v| < 2^20, coqc output parser",
@@ -1210,7 +1397,10 @@ def check(run: Run) -> None:
     y0_stats = {"permuted_y0_simulators": 0, "with_jacobian": 0}
     import itertools
 
-    for desc, t, x, p2 in itertools.chain(_cases(run, rng, n_models), _branch_cases(rng2, n_branch)):
+    rng5 = common.rng_for(run.seed, "c12-tiny")
+    n_tiny = 300 if thorough else 70
+    tiny_stats = {"cases": 0, "converted": 0, "entries_compared_at_expression_scale": 0, "nonzero_entries_below_1e-5": 0, "magnitude_not_computable": 0}
+    for desc, t, x, p2 in itertools.chain(_cases(run, rng, n_models), _branch_cases(rng2, n_branch), _tiny_cases(rng5, n_tiny)):
         y0perm = _y0_perm(rng3, len(desc["vars"]))
         rep = {"kind": "case", "desc": desc_to_json(desc), "t": t, "x": x, "p2": {str(k): v for k, v in (p2 or {}).items()}, "y0perm": y0perm}
         branching = c12_gen.uses_branching(desc)
@@ -1245,12 +1435,23 @@ def check(run: Run) -> None:
         if len(run.samples) < 3:
             run.sample({"kind": desc["kind"], "inputs": str(obs["inputs"])[:600], "t": t, "x": x, "sym": str(obs["sym"])[:300], "closure": str(obs["clo"])[:200]})
         bad, known = judge(desc, obs)
+        tiny = c12_gen.is_tiny(desc)
+        if tiny:
+            tbad, tst = judge_tiny(desc, obs)
+            bad = tbad + bad
+            tiny_stats["cases"] += 1
+            tiny_stats["converted"] += obs["sym"][0] == "ok"
+            tiny_stats["entries_compared_at_expression_scale"] += tst["judged"]
+            tiny_stats["nonzero_entries_below_1e-5"] += tst["tiny_terms"]
+            tiny_stats["magnitude_not_computable"] += "mag_err" in obs
         for b in bad:
             if len(viol) < 12:
                 viol.append((b, rep))
         known_hits += known
-        if branching:
-            continue  # Piecewise is outside the Coq expression fragment: judged by the oracle only
+        if branching or tiny:
+            # Piecewise is outside the Coq expression fragment; decimal coefficients such as 3e-7 are not exact in
+            # binary64 (and lambdify prints 15 digits): judged by the oracle only
+            continue
         # correspondence cases: the point itself, and the state after the parameter update
         c = coq_case(obs["inputs"], t, x, obs["sym"], obs["clo"], obs["rates"], obs["rhs"], obs.get("y0keys"), obs.get("clo_y0"))
         if c is None:
@@ -1285,12 +1486,24 @@ def check(run: Run) -> None:
         if sim2_stats["fallback_without_jacobian"]:
             run.broken_correspondence.append("a translatable model of the second round (sign-branching system / permuted y0 mapping) was simulated without Jacobian although use_jacobian=True")
 
+    sim3_stats = run_sims3(run, common.rng_for(run.seed, "c12-sims3"), 6 if thorough else 2, viol)
+    run.coverage["simulations_unit_conversion_coefficients"] = sim3_stats
+    if sim3_stats["runs"] and not viol:
+        if not sim3_stats["jacobian_evaluations_checked"]:
+            run.broken_correspondence.append("no Jacobian handed to an integrator was compared in the third round of simulations (unit-conversion coefficients): vacuous")
+        if sim3_stats["fallback_without_jacobian"]:
+            run.broken_correspondence.append("a translatable model of the third round (unit-conversion coefficients) was simulated without Jacobian although use_jacobian=True")
     run.coverage["input_distribution"] = {
         "model_kinds": kinds, "conversion_outcomes": outcomes, "closure_outcomes": clo_outcomes,
         "skipped_possibly_inexact": skipped_inexact, "correspondence_cases": len(coq_cases),
         "sign_branching_models_oracle_only": branch_stats, "y0_key_order": y0_stats,
+        "unit_conversion_coefficient_models_oracle_only": tiny_stats,
     }
     if not viol:
+        if not tiny_stats["nonzero_entries_below_1e-5"]:
+            run.broken_correspondence.append("no model with unit-conversion sized coefficients had a non-zero right-hand side / Jacobian entry below 1e-5: the comparison at the expression's own scale is vacuous")
+        if tiny_stats["magnitude_not_computable"]:
+            run.broken_correspondence.append(f"the magnitude of the symbolic equations could not be computed on {tiny_stats['magnitude_not_computable']} polynomial model(s) (c12_oracle.absval)")
         if not branch_stats["negative_sign_argument_states"]:
             run.broken_correspondence.append("no sign-branching model was observed at a state with a negative entry: the comparison at negative states is vacuous")
         if not y0_stats["with_jacobian"]:
@@ -1299,7 +1512,22 @@ def check(run: Run) -> None:
     # correspondence inside Coq
     per = 60
     files = {f"c12_{k:04d}": corr_file(list(chunk)) for k, chunk in enumerate(common.chunks(coq_cases, per))}
-    res = common.coq_eval_many(AREA, files, timeout_s=900)
+    ld_text, ld_inputs, ld_sympy_differs = limden_file(common.rng_for(run.seed, "c12-limden"), 300)
+    res = common.coq_eval_many(AREA, {**files, "c12_limden": ld_text}, timeout_s=900)
+    ok_ld, out_ld = res["c12_limden"]
+    lists_ld = common.parse_eval_list(out_ld) if ok_ld else None
+    ld = {"inputs": len(ld_inputs), "sympy_differs_from_cpython": ld_sympy_differs,
+          "model_differs_from_cpython": (len(lists_ld[-1]) if lists_ld else "shard did not evaluate")}
+    run.coverage["limit_denominator_model_vs_cpython"] = ld
+    if ld["model_differs_from_cpython"] != 0 or ld_sympy_differs:
+        # SymModel.limit_den is used by the REGRESSION fact StatRationalLimited only: on a tree whose static statement is
+        # the shipped one a drift of this library model cannot make the property fail -- a note, not an alarm
+        msg = f"the model of Fraction.limit_denominator (SymModel.limit_den) and CPython / SymPy disagree: {ld}" + (
+            f"; first input {ld_inputs[lists_ld[-1][0]]}" if lists_ld and lists_ld[-1] else "")
+        if facts.get("stat") == "StatRationalLimited":
+            run.broken_correspondence.append(msg)
+        else:
+            run.note(msg)
     mism_total = 0
     for k, name in enumerate(sorted(files)):
         ok, out = res[name]
@@ -1367,6 +1595,8 @@ def replay(rep: dict) -> int:
         p2 = {int(k): v for k, v in r.get("p2", {}).items()} or None
         obs = observe(desc, r["t"], r["x"], p2, r.get("y0perm"))
         bad, known = judge(desc, obs)
+        if c12_gen.is_tiny(desc):
+            bad = judge_tiny(desc, obs)[0] + bad
         print("conversion:", str(obs["sym"])[:400])
         print("closure:", str(obs["clo"])[:400])
         if "clo_y0" in obs:
